@@ -98,11 +98,39 @@ VARIANTS = [
                 do_check_subword_spaces(""")], {"C08": "TC:check::do_check_subword_spaces:Alternative.children"}),
     V("c08-ambiguity-check-dropped", [("src/regex.rs", "        regex.check_ambiguities(subword_regexes)?;\n", "")], {"C08": "MPT:regex::Regex::from_valid_grammar:check_ambiguities"}),
     V("c08-varying-names-threshold", [("src/check.rs", "if commands.len() > 1 {", "if commands.len() > 2 {")], {"C08": "GUARD:check::ValidGrammar::from_grammar:VaryingCommandNames"}),
+    # ---------------- C04
+    V("c04-revert-compadd-isocov-fix", [("src/tables.rs", "        if left_compadd != right_compadd {\n            return false;\n        }\n\n", "        let _ = (left_compadd, right_compadd);\n")], {"C04": "ISOCOV"}),
+    V("c04-fish-star-to-loses-base", [("src/fish.rs", "                .map(|(_, to)| format!(\"{}\", to + ARRAY_START))\n                .join(\" \");\n            writeln!(\n                buffer,\n                r#\"    set {scope_patch}star_transitions_to", "                .map(|(_, to)| format!(\"{}\", to))\n                .join(\" \");\n            writeln!(\n                buffer,\n                r#\"    set {scope_patch}star_transitions_to")], {"C04": "DIM:fish"}),
+    V("c04-bash-star-cell-swapped", [("src/bash.rs", ".map(|(from, to)| format!(\"[{from}]={to}\"))", ".map(|(from, to)| format!(\"[{to}]={from}\"))")], {"C04": "ROLE:bash::write_match_transitions"}),
+    V("c04-fish-subword-tables-wrong-base", [("src/fish.rs", "                    &id_from_cmd,\n                    ARRAY_START as usize,\n                    needs_subword_commands_code,", "                    &id_from_cmd,\n                    0,\n                    needs_subword_commands_code,")], {"C04": "ARGBASE:fish"}),
+    V("c04-bash-registers-other-function", [("src/bash.rs", "complete -o nospace -F _{command} {command}", "complete -o nospace -F _{command}_main {command}")], {"C04": "NAMES:bash"}),
+    V("c04-grouping-by-hash-alone", [("src/zsh.rs", "                left.isomorphic_to(right)\n", "                let _ = (left, right);\n                true\n")], {"C04": "ISOCOV"}),
+    V("c04-rename-closure-args-benign", [("src/bash.rs", ".map(|(from, to)| format!(\"[{from}]={to}\"))", ".map(|(src, dst)| format!(\"[{src}]={dst}\"))")], {"C04": None}),
+    V("c04-hash-coarser-benign", [("src/tables.rs", "            command,\n            compadd,\n        } = completion_transitions;", "            command,\n            compadd: _,\n        } = completion_transitions;"), ("src/tables.rs", """        if let Some(compadd) = compadd {
+            for level in compadd {
+                for (from, cmd_ids) in level {
+                    hasher.write_u32(*from);
+                    for id in cmd_ids {
+                        hasher.write_usize(*id);
+                    }
+                }
+            }
+        }
+
+""", "")], {"C04": None}),
+    V("c04-iso-ignores-compadd", [("src/tables.rs", "            compadd: left_compadd,\n        } = left_completion_transitions;", "            compadd: _,\n        } = left_completion_transitions;"), ("src/tables.rs", "            compadd: right_compadd,\n        } = right_completion_transitions;", "            compadd: _,\n        } = right_completion_transitions;"), ("src/tables.rs", "        if left_compadd != right_compadd {\n            return false;\n        }\n\n        true", "        true")], {"C04": "ISOCOV:tables::LookupTables::isomorphic_to:CompletionTransitions.compadd"}),
     # ---------------- C06
     V("c06-new-unwrap", [("src/check.rs", "            let Some(expn) = nonterms.get(nonterm) else {\n                return Ok(());\n            };", "            let expn = nonterms.get(nonterm).unwrap();")], {"C06": "PANIC:check::do_check_subword_spaces|unwrap"}),
     V("c06-exit-2", [("src/main.rs", "    }\n    exit(1);\n}", "    }\n    exit(2);\n}")], {"C06": "EXIT:main::handle_error:status", "C08": "HANDLER:main::handle_error:exit-1"}),
     V("c06-file-created-early", [("src/main.rs", "    let mut subword_regexes = RegexInternPool::default();\n", "    let script_file = get_file_or_stdout(path)?;\n    let mut subword_regexes = RegexInternPool::default();\n"), ("src/main.rs", "    let script_file = get_file_or_stdout(path)?;\n    let mut writer", "    let mut writer")], {"C06": "ORD:main::aot"}),
     V("c06-revert-subword-diag-fix", [("src/dfa.rs", 'Inp::Subword { .. } => write!(w, r#"<subword>"#)?,', "Inp::Subword { .. } => unreachable!(),")], {"C06": "PANIC:dfa::diagnostic_display_input|panic"}),
+    # additions: the class rule ARITH must stay silent on a new u32/usize addition (the false alarm of round 1: the table counted
+    # `+ array_start` sites and a fix: commit added one) and still report the additions its argument does not cover
+    V("c06-new-wide-add-benign", [("src/dfa.rs", "    writeln!(output, \"{indentation}node [shape=circle];\")?;\n    for state in regular_states {\n", "    writeln!(output, \"{indentation}node [shape=circle];\")?;\n    for state in regular_states {\n        let _shown = state + array_start;\n")], {"C06": None}),
+    V("c06-narrow-add", [("src/dfa.rs", "    writeln!(output, \"{indentation}node [shape=circle];\")?;\n    for state in regular_states {\n", "    writeln!(output, \"{indentation}node [shape=circle];\")?;\n    for state in regular_states {\n        let _lvl = (state as u8) + 250u8;\n")], {"C06": "PANIC:dfa::do_to_dot|assert:overflow:Add"}),
+    V("c06-big-constant-add", [("src/dfa.rs", "    writeln!(output, \"{indentation}node [shape=circle];\")?;\n    for state in regular_states {\n", "    writeln!(output, \"{indentation}node [shape=circle];\")?;\n    for state in regular_states {\n        let _far = state + 4_000_000_000u32;\n")], {"C06": "PANIC:dfa::do_to_dot|assert:overflow:Add"}),
+    V("c06-sub-through-ref", [("src/dfa.rs", "                        from + array_start,\n                        to + array_start,\n                        label", "                        from + array_start,\n                        to - array_start,\n                        label")], {"C06": "PANIC:dfa::do_to_dot|arith-call"}),
+    V("c06-wrapping-source", [("src/dfa.rs", "    writeln!(output, \"{indentation}node [shape=circle];\")?;\n    for state in regular_states {\n", "    writeln!(output, \"{indentation}node [shape=circle];\")?;\n    for state in regular_states {\n        let _prev = state.wrapping_sub(1) + array_start;\n")], {"C06": "ARITH:premise:CALL"}),
     # ---------------- C10
     V("c10-std-hashset-in-dfa", [("src/dfa.rs", "use hashbrown::{HashMap, HashSet};", "use hashbrown::HashMap;\nuse std::collections::HashSet;")], {"C10": "HASHORD:dfa::dfa_from_regex"}),
     V("c10-env-var", [("src/lib.rs", '    let version = env!("COMPLGEN_VERSION");', '    let version = std::env::var("COMPLGEN_VERSION").unwrap_or_default();')], {"C10": "AMBIENT:signature"}),
